@@ -85,6 +85,15 @@ CLAIMS = {
             "is hashed (checked against the GENERATED hash_fields); sweep: every offset x 4 values on both slots after 0..n commits + "
             "zeroing + random overwrites, library vs model.",
             "multi-byte damage is covered under the premise 'checksum mismatch' (evaluated), not unconditionally", "Coq theorem over generated layout + exhaustive byte sweep", "6/C12"),
+    "C16": ("translation_validation",
+            "The same histories are replayed under the configuration grid (page size x initial pages x strict x populate) and every call "
+            "and every committed file's decoded contents must equal the single reference run, so configurations are pairwise equal; strict "
+            "mode never rejects; growth runs cross >= 3 extension steps; every builder value 1024..1100 (+ odd large) works or is refused "
+            "cleanly in both profiles. Coq (CfgFacts): the builder accepts exactly valid_cfg (from the GENERATED guards) and exactly those "
+            "keep every page structure 8-byte aligned; the pinned builder without the alignment guard is refuted.",
+            "the equality library = reference per configuration is validated, not proved (inherits C01's unproved write path); page sizes "
+            ">= 2^24 and initial files > 80 MB are not exercised",
+            "configuration-grid differential against the extracted reference + Coq lemmas on the generated builder guards", "6/C16"),
 }
 
 NOT_YET = "check not built yet at this commit (build in progress; see DESIGN.md section 10)"
